@@ -29,6 +29,18 @@ META = {
 H0 = 1  # initial height of the fixture genesis
 
 
+def search_plan(c):
+    """Extra targeted runs made only when an obligation broke and the first batch found nothing (DESIGN 2.5)."""
+    runs = []
+    for i in range(4):
+        runs.append(("search-split-%d" % i, ["-scenario", "split", "-n", "4", "-heights", "3", "-seed", str(c.rng.below(2**31) + 1),
+                                             "-hold", str(300 + 200 * i), "-retries", "2", "-timeout", "25s"]))
+    for i in range(3):
+        runs.append(("search-equivocate-%d" % i, ["-scenario", "equivocate", "-n", "4", "-heights", "3",
+                                                  "-seed", str(c.rng.below(2**31) + 1), "-retries", "2", "-timeout", "25s"]))
+    return runs
+
+
 def plan(c):
     """List of harness invocations: (name, args). Seeds derive from c.rng only."""
     def seed():
@@ -38,6 +50,7 @@ def plan(c):
     if c.tier == "quick":
         runs.append(("clean-4", ["-scenario", "clean", "-n", "4", "-heights", "4", "-seed", seed()]))
         runs.append(("split-4", ["-scenario", "split", "-n", "4", "-heights", "3", "-seed", seed()]))
+        runs.append(("split-4b", ["-scenario", "split", "-n", "4", "-heights", "3", "-seed", seed(), "-hold", "700"]))
         runs.append(("equivocate-4", ["-scenario", "equivocate", "-n", "4", "-heights", "3", "-seed", seed()]))
         runs.append(("chaos-5", ["-scenario", "chaos", "-n", "5", "-heights", "3", "-seed", seed(), "-byzmode"]))
     else:
@@ -233,93 +246,100 @@ def main(argv):
             return name, args, None, "rc=%s no JSON on stdout; stderr tail: %s" % (rc, err[-600:])
         return name, args, obs, err[-300:]
 
-    workers = 4 if c.tier == "quick" else 3
-    with concurrent.futures.ThreadPoolExecutor(max_workers=workers) as ex:
-        results = list(ex.map(one, runs))
-
-    mark("harness_runs")
-    # 4. judge inside coqc
-    body = PRELUDE
-    infos = {}
-    good = []
-    for idx, (name, args, obs, err) in enumerate(results):
-        if obs is None:
-            c.fail_obligation("harness-run " + name, err, {"run": name, "args": args})
-            continue
-        text, info = encode_run(idx, obs)
-        body += "(* %s *)\n%s" % (name, text)
-        infos[idx] = info
-        good.append(idx)
-    verdicts = {}
-    if good and tok:
-        ok, cout = c.coq_eval("c03_cases", body)
-        if not ok:
-            c.fail_obligation("cases-eval", cout[-1500:])
-        else:
-            for idx in good:
-                verdicts[idx] = parse_out(cout, idx)
-
-    mark("coq_eval")
-    # 5. verdict
-    any_impl_failure = False
-    n_final = 0
-    dist = {"runs": len(results), "by_scenario": {}, "finalizations": 0, "finalized_in_round_gt0": 0, "votes_signed": 0,
+    results, infos, verdicts, good = [], {}, {}, []
+    dist = {"runs": 0, "by_scenario": {}, "finalizations": 0, "finalized_in_round_gt0": 0, "votes_signed": 0,
             "timed_out": 0, "engine_panics": 0, "engine_crashes": 0,
             "store_certificates_checked": 0, "store_entries_without_certificate": 0}
-    for idx in good:
-        name, args, obs, err = results[idx]
-        info = infos[idx]
-        v = verdicts.get(idx)
-        sc = obs.get("scenario", "?")
-        dist["by_scenario"][sc] = dist["by_scenario"].get(sc, 0) + 1
-        dist["finalizations"] += sum(len(s) for s in info["streams"])
-        dist["finalized_in_round_gt0"] += info["rounds_gt0"]
-        dist["votes_signed"] += info["votes"]
-        dist["timed_out"] += 1 if obs.get("timed_out") else 0
-        dist["engine_panics"] += len(obs.get("panics") or [])
-        dist["engine_crashes"] += 1 if obs.get("crashed") else 0
-        dist["store_certificates_checked"] += info["certs"]
-        dist["store_entries_without_certificate"] += info["nocert"]
-        n_final += sum(len(s) for s in info["streams"])
-        replay = {"run": name, "args": args, "how": "bin/h_c03 " + " ".join(args),
-                  "streams": obs.get("streams"), "stores": obs.get("stores"), "decisions": obs.get("decisions"),
-                  "block_ids": info["ids"], "stats": obs.get("stats"), "panics": obs.get("panics")}
-        if v is None:
-            if tok and verdicts:
-                c.fail_obligation("cases-parse " + name, "no verdict parsed for run %d" % idx, replay)
-            continue
-        replay["verdict"] = v
-        if not v["mon_streams"]:
-            any_impl_failure = True
-            c.report("disagreement-%s" % sc, "correct nodes' finalize streams differ at a height or are not contiguous "
-                     "(scenario %s): %s" % (name, json.dumps(obs.get("streams"))[:400]), replay)
-        elif not v["mon_all"]:
-            any_impl_failure = True
-            c.report("store-disagreement-%s" % sc, "committed-header stores disagree with the finalize streams "
-                     "(scenario %s)" % name, replay)
-        if not all(v["explained"]) and v["valset"]:
-            any_impl_failure = True
-            c.report("finalize-without-quorum-%s" % sc,
-                     "a node finalized a block for which the precommits signed by correct validators plus the Byzantine "
-                     "power are no quorum - the model's commit rule refuses the observed stream (scenario %s, nodes %s)"
-                     % (name, [i for i, e in enumerate(v["explained"]) if not e]), replay)
-        if not v["certs"] and v["valset"]:
-            any_impl_failure = True
-            c.report("store-certificate-without-quorum-%s" % sc,
-                     "a CommittedHeaderStore holds a header whose stored commit certificate has less than a >2/3 quorum "
-                     "of signers (scenario %s): %s" % (name, json.dumps(obs.get("stores"))[:300]), replay)
-        for hyp in ("a1", "a2", "a3"):
-            if not v[hyp]:
-                any_impl_failure = True
-                c.report("assumption-%s-%s" % (hyp.upper(), sc),
-                         "hypothesis %s is false of the votes signed by the correct validators in a real run (scenario %s)"
-                         % (hyp.upper(), name), replay)
-        if not v["valset"]:
-            c.fail_obligation("harness-valset " + name, "Byzantine power is not below the minority threshold in this run", replay)
-    if not proved and not any_impl_failure:
+    state = {"impl_failure": False, "n_final": 0}
+
+    def evaluate(batch, workers, tag):
+        """Run a batch on the real engines, judge it inside coqc, report failures of the implementation."""
+        base = len(results)
+        with concurrent.futures.ThreadPoolExecutor(max_workers=workers) as ex:
+            batch_results = list(ex.map(one, batch))
+        results.extend(batch_results)
+        mark("harness_runs" + tag)
+        body = PRELUDE
+        mine = []
+        for k, (name, args, obs, err) in enumerate(batch_results):
+            idx = base + k
+            if obs is None:
+                c.fail_obligation("harness-run " + name, err, {"run": name, "args": args})
+                continue
+            text, info = encode_run(idx, obs)
+            body += "(* %s *)\n%s" % (name, text)
+            infos[idx] = info
+            mine.append(idx)
+        good.extend(mine)
+        if mine:
+            ok, cout = c.coq_eval("c03_cases" + tag.replace("-", "_"), body)
+            if not ok:
+                c.fail_obligation("cases-eval", cout[-1500:])
+            else:
+                for idx in mine:
+                    verdicts[idx] = parse_out(cout, idx)
+        mark("coq_eval" + tag)
+        dist["runs"] += len(batch_results)
+        for idx in mine:
+            name, args, obs, err = results[idx]
+            info = infos[idx]
+            v = verdicts.get(idx)
+            sc = obs.get("scenario", "?")
+            dist["by_scenario"][sc] = dist["by_scenario"].get(sc, 0) + 1
+            dist["finalizations"] += sum(len(s) for s in info["streams"])
+            dist["finalized_in_round_gt0"] += info["rounds_gt0"]
+            dist["votes_signed"] += info["votes"]
+            dist["timed_out"] += 1 if obs.get("timed_out") else 0
+            dist["engine_panics"] += len(obs.get("panics") or [])
+            dist["engine_crashes"] += 1 if obs.get("crashed") else 0
+            dist["store_certificates_checked"] += info["certs"]
+            dist["store_entries_without_certificate"] += info["nocert"]
+            state["n_final"] += sum(len(s) for s in info["streams"])
+            replay = {"run": name, "args": args, "how": "bin/h_c03 " + " ".join(args),
+                      "streams": obs.get("streams"), "stores": obs.get("stores"), "decisions": obs.get("decisions"),
+                      "block_ids": info["ids"], "stats": obs.get("stats"), "panics": obs.get("panics"),
+                      "crash": obs.get("crash")}
+            if v is None:
+                if verdicts:
+                    c.fail_obligation("cases-parse " + name, "no verdict parsed for run %d" % idx, replay)
+                continue
+            replay["verdict"] = v
+            if not v["mon_streams"]:
+                state["impl_failure"] = True
+                c.report("disagreement-%s" % sc, "correct nodes' finalize streams differ at a height or are not contiguous "
+                         "(scenario %s): %s" % (name, json.dumps(obs.get("streams"))[:400]), replay)
+            elif not v["mon_all"]:
+                state["impl_failure"] = True
+                c.report("store-disagreement-%s" % sc, "committed-header stores disagree with the finalize streams "
+                         "(scenario %s)" % name, replay)
+            if not all(v["explained"]) and v["valset"]:
+                state["impl_failure"] = True
+                c.report("finalize-without-quorum-%s" % sc,
+                         "a node finalized a block for which the precommits signed by correct validators plus the Byzantine "
+                         "power are no quorum - the model's commit rule refuses the observed stream (scenario %s, nodes %s)"
+                         % (name, [i for i, e in enumerate(v["explained"]) if not e]), replay)
+            if not v["certs"] and v["valset"]:
+                state["impl_failure"] = True
+                c.report("store-certificate-without-quorum-%s" % sc,
+                         "a CommittedHeaderStore holds a header whose stored commit certificate has less than a >2/3 quorum "
+                         "of signers (scenario %s): %s" % (name, json.dumps(obs.get("stores"))[:300]), replay)
+            for hyp in ("a1", "a2", "a3"):
+                if not v[hyp]:
+                    state["impl_failure"] = True
+                    c.report("assumption-%s-%s" % (hyp.upper(), sc),
+                             "hypothesis %s is false of the votes signed by the correct validators in a real run (scenario %s)"
+                             % (hyp.upper(), name), replay)
+            if not v["valset"]:
+                c.fail_obligation("harness-valset " + name, "Byzantine power is not below the minority threshold in this run", replay)
+
+    evaluate(runs, 4 if c.tier == "quick" else 3, "")
+    if not proved and not state["impl_failure"] and not c.replay:
+        # an obligation broke but the implementation satisfied every monitor so far: search harder (DESIGN 2.5)
+        evaluate(search_plan(c), 2, "-search")
+    if not proved and not state["impl_failure"]:
         b = getattr(c, "broken", {"file": "?", "log": ""})
         c.fail_obligation("Properties/C03.v (%s)" % b["file"], b["log"],
-                          {"searched_runs": [r[0] for r in results], "finalizations_checked": n_final})
+                          {"searched_runs": [r[0] for r in results], "finalizations_checked": state["n_final"]})
 
     nontriv = sum(1 for idx in good if sum(1 for s in infos[idx]["streams"] if len(s) >= 2) >= 2)
     for idx in good[:6]:
